@@ -113,8 +113,10 @@ func libReadFile(g *FuncGen, c *ast.CallExpr, callee *types.Func, st *State) []V
 	fs := g.ghostGet(st, "$fs")
 	res := g.libResults(callee, st)
 	data, err := res[0], res[1]
-	// succeeds exactly when the path is a regular file; then the whole content is returned
-	g.assume(st, fmt.Sprintf("(= (= %s 0) (isFile %s %s))", err.T, fs, p.T))
+	// succeeds when the path is a regular file, unless the read fails (a fault); then the whole content is returned
+	fault := g.fresh("rdfault", "Bool")
+	g.assume(st, fmt.Sprintf("(= (= %s 0) (and (isFile %s %s) (not %s)))", err.T, fs, p.T, fault))
+	g.rdFailed(st, fmt.Sprintf("(and %s (isFile %s %s))", fault, fs, p.T))
 	g.assume(st, fmt.Sprintf("(=> (= %s 0) (= %s (content %s %s)))", err.T, data.T, fs, p.T))
 	g.assume(st, fmt.Sprintf("(=> (not (= %s 0)) (= (blen %s) 0))", err.T, data.T))
 	g.assume(st, fmt.Sprintf("(=> (isNotExist %s) (isAbsent %s %s))", err.T, fs, p.T))
@@ -213,7 +215,10 @@ func libOpen(g *FuncGen, c *ast.CallExpr, callee *types.Func, st *State) []Val {
 	fs := g.ghostGet(st, "$fs")
 	res := g.libResults(callee, st)
 	f, err := res[0], res[1]
-	g.assume(st, fmt.Sprintf("(= (= %s 0) (not (isAbsent %s %s)))", err.T, fs, p.T))
+	fault := g.fresh("rdfault", "Bool")
+	g.assume(st, fmt.Sprintf("(= (= %s 0) (and (not (isAbsent %s %s)) (not %s)))", err.T, fs, p.T, fault))
+	g.assume(st, fmt.Sprintf("(=> (isNotExist %s) (isAbsent %s %s))", err.T, fs, p.T))
+	g.rdFailed(st, fmt.Sprintf("(and %s (not (isAbsent %s %s)))", fault, fs, p.T))
 	// reading a directory yields nothing (every read fails): modelled as empty content
 	g.assume(st, fmt.Sprintf("(=> (= %s 0) (and (= (fpath %s) %s) (= (rdContent %s) (ite (isFile %s %s) (content %s %s) bempty)) (= (rdTee %s) 0)))", err.T, f.T, p.T, f.T, fs, p.T, fs, p.T, f.T))
 	g.assume(st, fmt.Sprintf("(=> (not (= %s 0)) (= %s 0))", err.T, f.T))
@@ -354,6 +359,8 @@ func libReadDir(g *FuncGen, c *ast.CallExpr, callee *types.Func, st *State) []Va
 	g.declFun("deName", []string{"Int"}, "Bytes")
 	g.declFun("deIsDir", []string{"Int"}, "Bool")
 	g.assume(st, fmt.Sprintf("(=> (= %s 0) (isDir %s %s))", err.T, fs, p.T))
+	// listing a directory that is there may fail all the same (a fault)
+	g.rdFailed(st, fmt.Sprintf("(and (not (= %s 0)) (isDir %s %s))", err.T, fs, p.T))
 	g.assume(st, fmt.Sprintf("(=> (not (= %s 0)) (= (slen %s) 0))", err.T, es.T))
 	g.assume(st, fmt.Sprintf("(forall ((k Int)) (! (=> (and (<= 0 k) (< k (slen %s))) (and (not (= (select (selems %s) k) 0)) (validName (deName (select (selems %s) k))) (not (isAbsent %s (pjoin %s (deName (select (selems %s) k))))) (= (deIsDir (select (selems %s) k)) (isDir %s (pjoin %s (deName (select (selems %s) k))))))) :pattern ((select (selems %s) k))))",
 		es.T, es.T, es.T, fs, p.T, es.T, es.T, fs, p.T, es.T, es.T))
